@@ -5,6 +5,7 @@
 -/
 import SettlusModel.Proofs.Hex
 import SettlusModel.Settlement
+import SettlusModel.Proofs.Sources
 namespace Settlus.C19
 open Settlus
 
@@ -49,6 +50,35 @@ theorem token_identity_partial (digits : Str) (hd : allHex digits) (hv : hexStrV
     storedValue ('0' :: 'x' :: digits) = hexStrVal digits := by
   unfold storedValue
   rw [(normalizeHex_val digits hd).1, Nat.mod_eq_of_lt hv]
+
+/-- **what the record message accepts as a token id is "0x" and hex digits, nothing else** - no sign, no blank, no underscore
+(before the repair of F22 a sign was accepted, and `0x+1`, `0x+2`, `0x-1` were all stored as token 0) -/
+theorem accepted_token_is_hex (amount : Option Int) (denom contract token : Str) (h : recordBasic amount denom contract token = true) :
+    ∃ digits, token = '0' :: 'x' :: digits ∧ digits ≠ [] ∧ allHex digits := by
+  unfold recordBasic at h
+  cases amount with
+  | none => simp at h
+  | some a =>
+    simp only [Bool.and_eq_true] at h
+    obtain ⟨_, ht⟩ := h
+    split at ht
+    · rename_i r
+      simp only [Bool.and_eq_true, Bool.not_eq_true'] at ht
+      unfold isBigHex at ht
+      simp only [Bool.and_eq_true, Bool.not_eq_true'] at ht
+      exact ⟨r, rfl, by intro e; subst e; simp at ht, allHex_of_all r ht.2.2⟩
+    · simp at ht
+
+/-- so every accepted token id below 2^160 is stored with its value (the hypothesis on the digits is what acceptance gives) -/
+theorem accepted_token_identity_partial (amount : Option Int) (denom contract token : Str)
+    (h : recordBasic amount denom contract token = true) (hv : hexStrVal (token.drop 2) < 2 ^ 160) :
+    storedValue token = hexStrVal (token.drop 2) := by
+  obtain ⟨d, e, _, hd⟩ := accepted_token_is_hex amount denom contract token h
+  subst e
+  exact token_identity_partial d hd (by simpa using hv)
+
+example : recordBasic (some 5) "uusdc".toList "0x00000000000000000000000000000000000000c1".toList "0x+1".toList = false := by decide
+example : recordBasic (some 5) "uusdc".toList "0x00000000000000000000000000000000000000c1".toList "0x0A".toList = true := by decide
 
 /-- below 2^160 two different accepted token ids never share a stored identity -/
 theorem token_identity_injective_partial (d₁ d₂ : Str) (h₁ : allHex d₁) (h₂ : allHex d₂)
@@ -98,5 +128,42 @@ theorem feeder_lookup_is_the_given_token (contract tok : Str) :
 /-- non-vacuity: token 0xa is looked up as ...0a (not as decimal 10 read as hex) -/
 example : (ownerOfCall "0x00000000000000000000000000000000000000c1".toList "0xa".toList).2 =
     "0x6352211e000000000000000000000000000000000000000000000000000000000000000a".toList := by decide
+/-- **what is presented to the feeders is exactly what is recorded and waits**: an NFT is among the sources computed for `until` iff
+some tenant with records holds a record for that very NFT - chain, contract and token - without recipients, created by `until` -/
+theorem presented_iff_waiting (st : SState) (until_ : Nat) (n : Nft) :
+    n ∈ nftsToVerify st until_ ↔ ∃ t ∈ st.recTenants, ∃ r ∈ st.recs t, r.nft = n ∧ r.rcpt = [] ∧ r.created ≤ until_ := by
+  unfold nftsToVerify
+  rw [mem_dedupNfts]
+  simp only [List.not_mem_nil, or_false, List.mem_map, List.mem_filter, Bool.and_eq_true, List.isEmpty_iff, decide_eq_true_eq]
+  unfold allRecs
+  constructor
+  · rintro ⟨p, ⟨hp, he, hc⟩, hn⟩
+    obtain ⟨t, ht, hpt⟩ := List.mem_flatMap.mp hp
+    obtain ⟨r, hr, e⟩ := List.mem_map.mp hpt
+    subst e
+    exact ⟨t, ht, r, hr, hn, he, hc⟩
+  · rintro ⟨t, ht, r, hr, hn, he, hc⟩
+    exact ⟨(t, r), ⟨List.mem_flatMap.mpr ⟨t, ht, List.mem_map.mpr ⟨r, hr, rfl⟩⟩, he, hc⟩, hn⟩
+
+/-- the round description published at the end of a block lists, for every record that waits for its owner and was created before
+the start of that block's round, that record's own NFT -/
+theorem round_description_presents_waiting (s : State) (t : Nat) (r : Rec) (ht : t ∈ s.st.recTenants) (hr : r ∈ s.st.recs t)
+    (he : r.rcpt = []) (hs : 0 < roundStart s.h s.os.params.votePeriod) (hc : r.created ≤ roundStart s.h s.os.params.votePeriod - 1) :
+    formatNft r.nft ∈ (nextRoundInfo s).sources := by
+  unfold nextRoundInfo
+  simp only [hs, if_true]
+  exact List.mem_map.mpr ⟨r.nft, (presented_iff_waiting s.st _ r.nft).mpr ⟨t, ht, r, hr, rfl, he, hc⟩, rfl⟩
+
+/-- and it lists nothing else: every published source is the NFT of a waiting record -/
+theorem round_description_presents_only_recorded (s : State) (x : Str) (hx : x ∈ (nextRoundInfo s).sources) :
+    ∃ t ∈ s.st.recTenants, ∃ r ∈ s.st.recs t, formatNft r.nft = x ∧ r.rcpt = [] := by
+  unfold nextRoundInfo at hx
+  simp only at hx
+  split at hx
+  · obtain ⟨n, hn, e⟩ := List.mem_map.mp hx
+    obtain ⟨t, ht, r, hr, hnr, he, _⟩ := (presented_iff_waiting s.st _ n).mp hn
+    exact ⟨t, ht, r, hr, by rw [hnr]; exact e, he⟩
+  · simp at hx
+
 
 end Settlus.C19
